@@ -17,7 +17,18 @@ from ufl import (
 
 GD = {"interval": 1, "triangle": 2, "quadrilateral": 2, "tetrahedron": 3, "hexahedron": 3, "prism": 3}
 
-REG: dict[str, dict] = {}
+class _Reg(dict):
+    """Registry; names of the form rand:<seed>:<index> are generated on demand (vlib/randforms.py)."""
+
+    def __missing__(self, name):
+        if name.startswith("rand:"):
+            from . import randforms
+
+            return dict(name=name, build=lambda n=name: randforms.build(n), tags={"rand"}, itypes=("cell", "exterior_facet", "interior_facet"))
+        raise KeyError(name)
+
+
+REG: dict[str, dict] = _Reg()
 
 
 def mesh(cell, gdeg=1, gdim=None):
